@@ -206,3 +206,42 @@ pub fn check(ctx: &mut Ctx, node: &Common) -> RunResult {
     }
     Ok(())
 }
+
+/// C19: a configuration value that is accepted is honoured -- what a session announces to its
+/// peer (Set Chunk Size, Window Acknowledgement Size, Set Peer Bandwidth) is the configured value,
+/// not a silently clamped one.  Only messages that are actually sent are judged (whether and when
+/// to announce is the session's business), and chunk sizes of 16,777,215 or more are equivalent.
+/// A transcript the reference decoder cannot follow is C18's business and is skipped here.
+pub fn check_announced(ctx: &mut Ctx, node: &Common, chunk: u32, window: u32, bandwidth: Option<u32>) -> RunResult {
+    let prop = ctx.prop;
+    let mut dec = RefChunkDecoder::new(false);
+    for p in node.out.iter() {
+        let msgs = match dec.feed(&p.bytes) {
+            Ok(v) => v,
+            Err(_) => return Ok(()),
+        };
+        for m in msgs.iter() {
+            if m.payload.len() < 4 || m.msid != 0 {
+                continue;
+            }
+            let v = u32::from_be_bytes([m.payload[0], m.payload[1], m.payload[2], m.payload[3]]);
+            let (what, want, ok) = match m.type_id {
+                1 => ("chunk size", chunk, v == chunk || (v >= 0xFF_FFFF && chunk >= 0xFF_FFFF)),
+                5 => ("acknowledgement window", window, v == window),
+                6 => match bandwidth {
+                    Some(b) => ("peer bandwidth", b, v == b),
+                    None => continue,
+                },
+                _ => continue,
+            };
+            ctx.probe("c19.announced_values_checked");
+            if !ok {
+                return Err(Violation::new(
+                    format!("{}/config/announced-other-than-configured", prop),
+                    format!("{} session was configured with {} {} and announces {} to its peer", node.name, what, want, v),
+                ));
+            }
+        }
+    }
+    Ok(())
+}
